@@ -19,7 +19,7 @@ ODD_CHARS = [',', '"', "'", ' ', ';', '=', '(', ')', '[', ']', 'é', 'β', '/', 
 
 @st.composite
 def node_namer(draw, allow_odd=True):
-    scheme = draw(st.sampled_from(['plain', 'plain', 'scrambled', 'numeric', 'odd', 'shared'] if allow_odd
+    scheme = draw(st.sampled_from(['plain', 'plain', 'scrambled', 'numeric', 'odd', 'odd', 'shared', 'padded'] if allow_odd
                                   else ['plain', 'scrambled', 'numeric', 'shared']))
     salt = draw(st.integers(0, 96))
     odd = draw(st.sampled_from(ODD_CHARS)) if scheme == 'odd' else ''
@@ -41,6 +41,10 @@ def make_name(namer, level_idx, idx):
         return str((idx * 37 + namer['salt']) % 9973 + 10000 * level_idx)
     if s == 'odd':
         return f'{pre}{namer["odd"]}{(idx * 37 + namer["salt"]) % 9973}'
+    if s == 'padded':
+        # labels with leading / trailing blanks; neighbours differ only by such padding ('L07', 'L07 ', ' L07')
+        base = f'{pre}{((idx // 3) * 37 + namer["salt"]) % 9973:04d}'
+        return [base, base + ' ', ' ' + base][idx % 3]
     raise ValueError(s)
 
 
@@ -190,8 +194,14 @@ def query_specs(draw, ref_genes, must_include=(), max_cells=16, dtypes=DTYPES,
                 max_count=60):
     """query matrix description; values expanded from 'seed'"""
     n_cells = draw(st.integers(min_cells, max_cells))
+    if max_cells >= 6 and draw(st.integers(0, 7)) == 0:
+        # enough cells for chunk boundaries with different digit counts (0_5, 5_10, 10_15 ...)
+        n_cells = draw(st.integers(11, 36))
     keep = [g for g in ref_genes if g in must_include or draw(st.integers(0, 9)) < 9]
     extra = [f'x{i}' for i in range(draw(st.integers(0, 3)))] if extra_genes else []
+    if extra_genes and draw(st.integers(0, 11)) == 0:
+        # a query much wider than the reference (more columns than a one-byte index holds)
+        extra = [f'x{i}' for i in range(draw(st.integers(240, 300)))]
     genes = draw(shuffled(keep + extra))
     id_scheme = draw(st.sampled_from(['c', 'c', 'num', 'uni']))
     if id_scheme == 'c':
@@ -205,8 +215,10 @@ def query_specs(draw, ref_genes, must_include=(), max_cells=16, dtypes=DTYPES,
         cells = draw(st.permutations(cells))
     zero_rows = draw(st.lists(st.integers(0, n_cells - 1), max_size=2, unique=True)) \
         if draw(st.integers(0, 3)) == 0 else []
+    idx_dtype = draw(st.sampled_from([None, None, None, None, 'int64', 'uint32', 'uint16']))
     return {
         'genes': list(genes), 'cells': list(cells),
+        'idx_dtype': idx_dtype,
         'seed': draw(st.integers(0, 2**31 - 1)),
         'max_count': max_count,
         'density': draw(st.sampled_from([0.4, 0.8, 0.9, 1.0])),
@@ -254,10 +266,12 @@ def map_configs(draw, tree_data, n_cells, factor=None, allow_flatten=True, allow
     return {
         'flatten': flatten,
         'drop_level': drop,
-        'chunk_size': draw(st.integers(1, n_cells + 3)),
-        'n_processors': draw(st.integers(1, 4)),
+        'chunk_size': (draw(st.sampled_from([1, 2, 3, 5, 7])) if n_cells >= 11 and draw(st.booleans())
+                       else draw(st.integers(1, n_cells + 3))),
+        'n_processors': draw(st.sampled_from([1, 1, 2, 3, 4])),
         'n_runners_up': draw(st.integers(0, 4)),
-        'bootstrap_iteration': draw(st.sampled_from([i for i in (1, 2, 3, 5, 8, 12, 12, 8, 5, 130, 300) if i <= max(1, max_iter)])),
+        'bootstrap_iteration': draw(st.sampled_from([i for i in (1, 2, 3, 5, 8, 12, 12, 8, 5, 130, 300)
+                                                      if i <= max(1, max_iter if n_cells <= 12 else min(max_iter, 12))])),
         'bootstrap_factor': factor,
         'bootstrap_factor_lookup': lookup,
         'min_markers': draw(st.integers(1, 6)),
